@@ -23,6 +23,14 @@ Blame ==
   @@ "he.pos"     :> {"C01"}
   @@ "ha.msg"     :> {"C11"}
   @@ "ha.timeout" :> {"C11"} @@ "ha.timeout.stream" :> {"C13", "C11"}
+  @@ "ha.libpanic.broadcast_unit" :> {"C16"} @@ "ha.libpanic.broadcast_bc" :> {"C16"} @@ "ha.libpanic.broadcast_bc2" :> {"C16"}
+  @@ "ha.libpanic.add_child" :> {"C16"} @@ "ha.libpanic.register_bc" :> {"C16"} @@ "ha.libpanic.register_bc2" :> {"C16"}
+  @@ "ha.libpanic.subscribe" :> {"C09"} @@ "ha.libpanic.publish" :> {"C09"}
+  @@ "ha.libpanic.interval" :> {"C10"} @@ "ha.libpanic.interval_with" :> {"C10"} @@ "ha.libpanic.delayed_send" :> {"C10"} @@ "ha.libpanic.delayed_exec" :> {"C10"}
+  @@ "ha.libpanic.ctx_stop" :> {"C04", "C15"} @@ "ha.libpanic.ctx_restart" :> {"C07", "C15"}
+  @@ "ha.libpanic.call_peer" :> {"C02"} @@ "ha.libpanic.send_peer" :> {"C02"}
+  @@ "ha.libpanic.ctx_weak_address" :> {"C15"} @@ "ha.libpanic.ctx_weak_sender" :> {"C15"} @@ "ha.libpanic.ctx_weak_caller" :> {"C15"}
+  @@ "ha.libpanic.yield" :> {"C11"} @@ "ha.libpanic.sleep" :> {"C11"}
   @@ "adv.vt.streamtmo" :> {"C13", "C11"} @@ "adv.pending.streamtmo" :> {"C13", "C11"}
   @@ "blk.timer.alive" :> {"C10", "C15"} @@ "exit.timer.alive.aftertimeout" :> {"C10", "C15", "C11"}
   @@ "hb.phase.timer.closed" :> {"C10", "C05", "C03"}
